@@ -117,7 +117,14 @@ def find_def(rel, qualname):
         while stack:
             n = stack.pop(0)
             if isinstance(n, (ast.FunctionDef, ast.AsyncFunctionDef, ast.ClassDef)) and n.name == part:
-                found = n           # python semantics: the LAST definition of a name wins (e.g. after @overload stubs)
+                # python semantics: the LAST definition of a name wins (e.g. after @overload stubs); property setters /
+                # deleters re-use the getter's name and are located by find_property_setter instead
+                decos = [d.attr if isinstance(d, ast.Attribute) else (d.id if isinstance(d, ast.Name) else "") for d in getattr(n, "decorator_list", [])]
+                if any(d in ("setter", "deleter", "overload") for d in decos) and found is not None:
+                    continue
+                if any(d in ("setter", "deleter") for d in decos):
+                    continue
+                found = n
                 continue
             if isinstance(n, (ast.If, ast.Try, ast.With)):
                 stack = list(getattr(n, "body", [])) + list(getattr(n, "orelse", [])) + \
